@@ -13,10 +13,14 @@ RULE = ("n files, one object each, inside {backend-wide, per-object, per-object 
         "and changed outside after entering the buffer, MetadataError/BufferedError names EXACTLY those files, outside "
         "content survives, read-only files are not rewritten, clean modified files are written; afterwards size 0, no active "
         "context, capacity restored, every object shows the disk content unbuffered AND in a subsequent buffered context; "
-        "non-trivial = distinct reached states")
-BOUNDS = {"quick": "n=2 files, 4 context shapes, Buffered/MemoryBuffered x dict + list(cls only)",
-          "thorough": "n=2 all 8 classes all shapes; n=3 for Buffered/MemoryBuffered dict"}
-ASSUMPTIONS = ["outside rewrites always change (size, mtime_ns): the library's detection mechanism; the harness forces strictly increasing mtimes",
+        "non-trivial = distinct reached states; family ff: every sequence (bounded length) of reads/writes/outside changes on "
+        "2 files and forced flushes followed by MORE operations, in 4 context shapes, judged by 'an outside change or a write "
+        "disappears only after an error naming the file'")
+BOUNDS = {"quick": "n=2 files, 4 context shapes, Buffered/MemoryBuffered x dict + list(cls only); ff: sequences <= 4",
+          "thorough": "n=2 all 8 classes all shapes; n=3 for Buffered/MemoryBuffered dict; ff: sequences <= 5, all 8 classes"}
+ASSUMPTIONS = ["family ff (operations continue after a forced flush) is judged by the property itself - outside changes and writes "
+               "may vanish only after an error naming the file - because what a forced flush keeps buffered is eviction policy",
+               "outside rewrites always change (size, mtime_ns): the library's detection mechanism; the harness forces strictly increasing mtimes",
                "writes always change content (a write that restores the original bytes makes 'would write' implementation-defined)",
                "after the policy-independent forced flush only context exits follow"]
 
@@ -173,12 +177,208 @@ def plan(tier, seed):
         if n == 3:
             kw["max_transitions"] = 50000
         tasks += seqcheck.split(4 if n == 2 else 24, **kw)
+    ffc = ("BufferedJSONDict", "MemoryBufferedJSONDict", "BufferedJSONList", "MemoryBufferedJSONList") if tier == "quick" else \
+        [c for fam in env.BUFFERED_FAMILIES for c in env.JSON_FAMILIES[fam]]
+    for c in ffc:
+        for sh in FF_SHAPES:
+            tasks.append({"kind": "ff", "label": "%s/ff-%s" % (c, sh), "clsname": c, "shape": sh,
+                          "maxlen": 4 if tier == "quick" else 5})
     return tasks
 
 
+# --------------------------------------------------------------------------------------
+# Family "ff": life goes on after a capacity-forced flush
+# --------------------------------------------------------------------------------------
+# The BFS above stops operating once a forced flush happened, because what a forced flush keeps in the buffer
+# is eviction policy (the serialized strategy drops what it wrote or never modified, the shared-memory strategy
+# keeps every entry), and the exact reference cannot follow both.  This family enumerates EVERY sequence of
+# {read, write, outside change} x 2 files and forced flushes (set_buffer_capacity(0), then back to a large
+# capacity) up to a length bound, inside each context shape, then leaves the contexts, and judges the run by
+# the property itself rather than by an exact model:
+#   * an outside change may disappear from the file only if an error naming that file was raised after it;
+#   * a write may be missing from the file only if an error naming that file was raised after it;
+#   * only BufferedError/MetadataError may be raised, only by flushing events, only naming files that really were
+#     changed outside while buffered;
+#   * afterwards: size 0, nothing buffered, capacity back, and a later session reads what is on disk.
+
+FF_SYMBOLS = ("R0", "W0", "E0", "R1", "W1", "E1", "F")
+FF_SHAPES = ("cls", "obj-in-cls", "obj", "cls-in-obj")
+
+
+def ff_sequences(maxlen):
+    import itertools
+    out = []
+    for n in range(1, maxlen + 1):
+        for seq_ in itertools.product(FF_SYMBOLS, repeat=n):
+            if "F" in seq_ and any(x[0] == "E" for x in seq_):
+                out.append(seq_)
+    return out
+
+
+def _names(world, exc):
+    """indices of the resources an exception names"""
+    paths = {getattr(r, "path", None): i for i, r in enumerate(world.resources)}
+    got = set()
+    files = getattr(exc, "files", None)
+    if isinstance(files, dict):
+        for f in files:
+            if f in paths:
+                got.add(paths[f])
+    fn = getattr(exc, "filename", None)
+    if fn in paths:
+        got.add(paths[fn])
+    return got
+
+
+def run_ff(c, shape, symbols):
+    kind_ = env.kind_of(c)
+    big = 10 ** 6
+    # a third file is the ballast that makes every forced flush real (a capacity change only flushes when the
+    # reported size exceeds the new capacity, and the shared-memory strategy counts modified files only)
+    cfg = seq.Config(c, initial=(INIT[kind_],) * 3, objects=(0, 1, 2), label="%s/ff-%s" % (c, shape))
+    world = seq.World(cfg)
+    k = world.klass
+    out = []
+    try:
+        prefix = {"cls": [("enter_cls", None)], "obj-in-cls": [("enter_cls", None), ("enter", 0), ("enter", 1)],
+                  "obj": [("enter", 0), ("enter", 1), ("enter", 2)],
+                  "cls-in-obj": [("enter", 0), ("enter", 1), ("enter_cls", None)]}[shape]
+        suffix = {"cls": [("exit_cls",)], "obj-in-cls": [("exit", 1), ("exit", 0), ("exit_cls",)],
+                  "obj": [("exit", 2), ("exit", 1), ("exit", 0)],
+                  "cls-in-obj": [("exit_cls",), ("exit", 1), ("exit", 0)]}[shape]
+        for ev in prefix:
+            oc = world.apply(ev)
+            if oc and oc[0] == "exc":
+                return [("ctxerr", "%r raised %s: %s" % (ev, type(oc[1]).__name__, oc[1]))]
+        ext_cnt = [0, 0, 0]
+        last_ext = [None, None, None]
+        writes = [[], [], []]  # (index, marker)
+        errors = []  # (index, set of named resources)
+        nw = 0
+        events = []
+        for s_ in symbols:
+            if s_ == "F":
+                nw += 1
+                events.append(("op", 2, "setitem", ("w%d" % nw, nw)) if kind_ == "dict" else ("op", 2, "append", ("w%d" % nw,)))
+                events += [("setcap", 0), ("setcap", big)]
+                continue
+            r = int(s_[1])
+            if s_[0] == "R":
+                events.append(("op", r, "call", ()))
+            elif s_[0] == "W":
+                nw += 1
+                events.append(("op", r, "setitem", ("w%d" % nw, nw)) if kind_ == "dict" else ("op", r, "append", ("w%d" % nw,)))
+            else:
+                events.append(("E", r))
+        events += suffix
+        for i, ev in enumerate(events):
+            if ev[0] == "E":
+                r = ev[1]
+                ext_cnt[r] += 1
+                last_ext[r] = i
+                cur = world.resources[r].read()
+                if kind_ == "dict":
+                    cur["ext"] = ext_cnt[r]
+                else:
+                    cur[0] = "ext%d" % ext_cnt[r]
+                world.resources[r].ext_write(cur)
+                continue
+            oc = world.apply(ev)
+            if ev[0] == "op" and model.is_mutator(ev[2]):
+                writes[ev[1]].append((i, ev[3][0]))
+            if oc and oc[0] == "exc":
+                e = oc[1]
+                mro = [t.__name__ for t in type(e).__mro__]
+                if "BufferedError" not in mro and "MetadataError" not in mro:
+                    out.append(("unexpected-exception", "%r raised %s: %s" % (ev, type(e).__name__, e)))
+                    continue
+                if ev[0] == "op" and ev[2] == "call":
+                    out.append(("read-raised", "a read raised %s: %s" % (type(e).__name__, e)))
+                named = _names(world, e)
+                errors.append((i, named))
+                for r in named:
+                    if last_ext[r] is None:
+                        out.append(("false-conflict", "%r raised %s naming file %d which nobody changed outside" % (ev, type(e).__name__, r)))
+        for r in range(3):
+            d = world.resources[r].read()
+            ok_shape = isinstance(d, dict) if kind_ == "dict" else isinstance(d, list)
+            if not ok_shape:
+                out.append(("final-file", "file %d holds %r" % (r, d)))
+                continue
+            if ext_cnt[r]:
+                have = d.get("ext") if kind_ == "dict" else (d[0] if d else None)
+                want = ext_cnt[r] if kind_ == "dict" else "ext%d" % ext_cnt[r]
+                if have != want and not any(i >= last_ext[r] and r in named for i, named in errors):
+                    out.append(("silent-overwrite", "the outside change #%d of file %d is gone (file holds %r) and no error naming the "
+                                                    "file was raised after it" % (ext_cnt[r], r, d)))
+            for i0, marker in writes[r]:
+                present = (marker in d)
+                if not present and not any(i >= i0 and r in named for i, named in errors):
+                    out.append(("write-lost", "write %r to file %d is not in the file (%r) and no error naming the file was raised "
+                                              "after it" % (marker, r, d)))
+        if k.get_current_buffer_size() != 0:
+            out.append(("not-pristine", "buffer size %r after every context exited" % k.get_current_buffer_size()))
+        if k.backend_is_buffered():
+            out.append(("not-pristine", "backend_is_buffered() after every context exited"))
+        k.set_buffer_capacity(env.default_capacity(c))
+        with k.buffer_backend():
+            for o in range(3):
+                got = model.to_plain(world.objects[o]())
+                want = world.resources[o].read()
+                if not model.exact_eq(got, want):
+                    out.append(("stale-entry", "in a later buffered context object %d shows %r, disk holds %r" % (o, got, want)))
+        if k.get_current_buffer_size() != 0:
+            out.append(("not-pristine", "buffer size %r after a later read-only context" % k.get_current_buffer_size()))
+    except Exception as e:  # noqa: BLE001
+        import traceback
+        out.append(("probe-error", "%s: %s %s" % (type(e).__name__, e, traceback.format_exc()[-300:])))
+    finally:
+        seq._teardown(world)
+    return out
+
+
+def run_ff_task(task):
+    from .. import isolate
+    from ..runner import new_result
+    env.lib()
+    c, shape = task["clsname"], task["shape"]
+    seqs = ff_sequences(task["maxlen"])
+
+    def handler(i):
+        v = run_ff(c, shape, seqs[i])
+        return v, bool(v)
+
+    server = isolate.Server(handler)
+    res = new_result()
+    try:
+        for i, sq in enumerate(seqs):
+            viol = server.call(i)
+            res["evaluations"] += 1
+            res["transitions"] += len(sq) + 1
+            for kind_, detail in viol:
+                if len(res["violations"]) < 40:
+                    res["violations"].append({"signature": "%s|%s/ff-%s|%s|%s" % (PROPERTY, c, shape, "after-forced-flush", kind_),
+                                              "detail": "%s: %s" % (" ".join(sq), detail),
+                                              "replay": {"engine": "c07ff", "module": __name__, "clsname": c, "shape": shape,
+                                                         "history": list(sq)}})
+    finally:
+        server.close()
+    res["states"] = len(seqs)
+    res["nontrivial"] = len(seqs)
+    res["max_depth"] = task["maxlen"]
+    res["samples"] = [{"class": c, "shape": shape, "sequence": list(seqs[len(seqs) // 2])}]
+    res["outcomes"] = {"ff-sequences": len(seqs)}
+    return res
+
+
 def run_task(task):
+    if task.get("kind") == "ff":
+        return run_ff_task(task)
     return seqcheck.run_seq_task(sys.modules[__name__], task)
 
 
 def replay(doc):
+    if doc.get("engine") == "c07ff":
+        env.lib()
+        return run_ff(doc["clsname"], doc["shape"], tuple(doc["history"]))
     return seqcheck.replay_seq(doc)
